@@ -21,7 +21,9 @@ os.makedirs(PROF, exist_ok=True)
 tools = glob.glob(os.path.expanduser("~/.rustup/toolchains/nightly-x86_64-*/lib/rustlib/*/bin"))[0]
 env = dict(os.environ)
 env.update({"CARGO_NET_OFFLINE": "true", "CARGO_TARGET_DIR": TARGET,
-            "RUSTFLAGS": "--cfg flexi_logger_verif -C instrument-coverage"})
+            "RUSTFLAGS": "--cfg flexi_logger_verif -C instrument-coverage",
+            # (instrumented build scripts and proc macros write profiles too: keep them out of the source trees)
+            "LLVM_PROFILE_FILE": os.path.join(SCR, "build-%p-%m.profraw")})
 r = subprocess.run(["cargo", "+nightly", "build", "--release", "--offline"], cwd=lib.HARNESS, env=env,
                    stdout=subprocess.PIPE, stderr=subprocess.STDOUT)
 if r.returncode != 0:
